@@ -36,6 +36,13 @@ CHECKS = {
         "covers": ["C15/init-succeeds", "C15/shutdown-succeeds"],
         "assumptions": A_COMMON + A_STORE + A_BANK + ["params satisfy the module's own validators (executed)", "WF: a Collateral record exists only together with the Providers record of the same address (both written and removed together by InitProvider/ShutdownProvider)"],
     },
+    "C18": {
+        "groups": [{"pkgs": "./x/notifications/keeper", "fns": ["VH_C18_*"]}],
+        "covers": ["C18/inbox-listed", "C18/delete-removes"],
+        "bounds": {"history": "<= 2 CreateNotification + 1 BlockSenders (one blocked address) in either order, then the listing"},
+        "assumptions": A_COMMON + A_STORE + ["A-B32", "senders and recipients are canonical account strings (ValidateBasic / Resolve)",
+                                             "cross-type decoding follows protobuf field numbers and wire types (crossDecode)"],
+    },
     "C16": {
         "groups": [{"pkgs": "./x/rns/keeper", "fns": ["VH_C16_*"]}],
         "covers": ["C16/register-succeeds", "C16/register-fails", "C16/renewal-of-live-name"],
